@@ -45,8 +45,9 @@ theorem download_from_reply (M : Nat) (req : Request) (st : BlockState) (resp : 
   rw [hserve] at hcore
   simp only at hcore
   rw [hcore]
-  have htail := download_tail M resp rb2.szx hs hk reqs 1 { st with cachedResponse := some resp } rfl
-    hfu hne hlast hcover
+  have htail := download_tail M resp rb2.szx hs hk reqs 1
+    { st with cachedResponse := some resp, cachedSzx := some rb2.szx } rfl
+    (fun x hx => by simp only [Option.some.injEq] at hx; omega) hfu hne hlast hcover
   refine ⟨rfl, ?_, ?_, htail.2.1, htail.2.2⟩
   · simp [hpay]
   · rw [htail.1, Nat.one_mul, ← hsize]
